@@ -11,7 +11,7 @@
   `verif_dump()` after every operation with `Code`; lib/c16.py evaluates `Spec.gstep` and `Agree` on the
   implementation's own dumps.
 -/
-import FerrousSpec.Proofs.GroupsHistory
+import FerrousSpec.Proofs.GroupsIdle
 namespace Ferrous.C16
 open Ferrous.Grp
 
@@ -310,6 +310,69 @@ theorem xclaim_moves (g : Group) (c : Name) (elig : Bool) (ids : List Id) :
     (Code.claim g c elig ids).2 = (Spec.claim (Grp.abs g) c elig ids).2 ∧
     (Agree g → Agree (Code.claim g c elig ids).1) :=
   ⟨(claim_refines g c elig ids).1, (claim_refines g c elig ids).2, fun h => agree_claim h c elig ids⟩
+
+/-- XCLAIM's idle threshold is measured from the LAST delivery: after a successful claim of `id` at time `t` (which
+    stamps the row with `t`), any claim of `id` without FORCE and with min-idle `T` at a time `t'` with `t' - t < T`
+    — in particular immediately, `t' = t`, for every `T > 0` — is refused: nothing is claimed, the owner, the delivery
+    count and every other representation stay as the first claim left them (only the would-be claimer is created). -/
+theorem claim_resets_idle (g : Group) (ts : Code.Times) (c c' : Name) (t t' T T' : Nat) (force : Bool) (id : Id)
+    (h : (Code.claimT (g, ts) c t T' force [id]).2 = [id]) (hT : t' - t < T) :
+    let s1 := (Code.claimT (g, ts) c t T' force [id]).1
+    (Code.claimT s1 c' t' T false [id]).2 = [] ∧
+    (Code.claimT s1 c' t' T false [id]).1 = (Code.createConsumer s1.1 c', s1.2) ∧
+    Code.lastOf s1.2 id = t := by
+  have hr : (Code.claimOne c (Code.idleOk t (Code.lastOf ts id) T' force) (Code.createConsumer g c) id).2 = true := by
+    simp only [Code.claimT, Code.claimLoopT] at h
+    cases hx : (Code.claimOne c (Code.idleOk t (Code.lastOf ts id) T' force) (Code.createConsumer g c) id).2 with
+    | true => rfl
+    | false => rw [hx] at h; simp at h
+  intro s1
+  have hs1 : s1.2 = Code.setLast ts id t := by
+    show (Code.claimT (g, ts) c t T' force [id]).1.2 = _
+    simp only [Code.claimT, Code.claimLoopT, hr, if_true]
+  have hlast : Code.lastOf s1.2 id = t := by rw [hs1, lastOf_setLast]
+  refine ⟨?_, ?_, hlast⟩
+  · simp only [Code.claimT, Code.claimLoopT, hlast, idleOk_within hT, claimOne_false]
+    simp
+  · simp only [Code.claimT, Code.claimLoopT, hlast, idleOk_within hT, claimOne_false]
+    simp
+
+/-- Once the threshold has elapsed since that last claim, the entry can be claimed again (the test is exactly
+    `T ≤ now - last_delivery`). -/
+theorem claim_allowed_after_idle (g : Group) (ts : Code.Times) (c : Name) (now T : Nat) (id : Id) (e : PEntry)
+    (hp : pelFind id (Code.createConsumer g c).byId = some e) (hT : T ≤ now - Code.lastOf ts id) :
+    (Code.claimT (g, ts) c now T false [id]).2 = [id] ∧
+    Code.lastOf (Code.claimT (g, ts) c now T false [id]).1.2 id = now := by
+  have hok : Code.idleOk now (Code.lastOf ts id) T false = true := by simp [Code.idleOk, hT]
+  have hr : (Code.claimOne c true (Code.createConsumer g c) id).2 = true := by rw [claimOne_some hp]
+  constructor
+  · simp only [Code.claimT, Code.claimLoopT, hok, hr, if_true]
+  · simp only [Code.claimT, Code.claimLoopT, hok, hr, if_true]
+    exact lastOf_setLast ts id now
+
+/-- The timed claim is the Boolean one whenever the idle test has a uniform outcome (min-idle 0 or FORCE: passes;
+    a threshold larger than the clock: fails) — which is how the untimed histories of the check use it — and it
+    preserves the agreement of the representations whatever the times are. -/
+theorem claim_timed (g : Group) (ts : Code.Times) (c : Name) (now minIdle : Nat) (force b : Bool) (ids : List Id) :
+    ((∀ l, Code.idleOk now l minIdle force = b) →
+      (Code.claimT (g, ts) c now minIdle force ids).1.1 = (Code.claim g c b ids).1 ∧
+      (Code.claimT (g, ts) c now minIdle force ids).2 = (Code.claim g c b ids).2) ∧
+    (Agree g → Agree (Code.claimT (g, ts) c now minIdle force ids).1.1) := by
+  constructor
+  · intro h
+    exact claimLoopT_uniform c now minIdle force b h ids (Code.createConsumer g c, ts)
+  · intro h
+    have h0 := agree_createConsumer h c
+    obtain ⟨h1, h2, h3⟩ := claimLoopT_agree c now minIdle force ids (Code.createConsumer g c, ts) h0.toAgreeCore
+      (alGet_consCreate_self c g.consumers)
+    exact { toAgreeCore := h1, total := by
+              show (Code.claimLoopT c now minIdle force (Code.createConsumer g c, ts) ids).1.1.totalPending = _
+              rw [h2]; exact h0.total.trans h3.symm }
+
+/-- WITNESS of what the idle test must not do: measured from the FIRST delivery (time 0) instead of the last one, the
+    second claim at time 400 with threshold 300 would pass (`300 ≤ 400 - 0`); measured as prescribed it is refused. -/
+theorem claim_idle_from_first_delivery_differs :
+    Code.idleOk 400 0 300 false = true ∧ Code.idleOk 400 400 300 false = false := by decide
 
 /-- XPENDING summary on agreeing states equals the actual pending set: the total is the number of pending rows, the
     bounds are the smallest and largest pending id, and the per-consumer rows are exactly the owners with the
